@@ -21,7 +21,9 @@ TRUSTED = ["effect analysis call resolution (name-based over-approximation insid
            "library functions outside onnx_ir are classified by a table of file-system primitives (pyvc/effects.py FS_CALLS/FS_METHODS); "
            "all other numpy/onnx/protobuf/stdlib calls are assumed to perform no file access (listed in evidence)",
            "format sites whose operand type is not statically known are assumed not to format tensor-holding IR objects (listed in evidence)"]
-NOT_DECIDED = ["'returns a consistent IR' rests on (2) + the C01/C06/C11 contracts of the public mutators, not on a whole-function proof of "
+NOT_DECIDED = ["_declare_node_outputs (redeclared output names rejected; no earlier binding replaced; one value per output) is PROVED as a "
+               "functional contract on the real function; ",
+               "'returns a consistent IR' rests on (2) + the C01/C06/C11 contracts of the public mutators, not on a whole-function proof of "
                "_deserialize_graph/_deserialize_node (scoped name tables): bounded stand-in",
                "serialize(result) raises or is a fixed point of deserialize;serialize: bounded stand-in",
                "termination: syntactic loop/recursion argument (3), no ranking-function VC"]
@@ -105,3 +107,72 @@ def build(eng, tier):
         "format_sites_of_unknown_static_type": untyped,
         "cut_edges": res["cut_edges"], "while_loops": sorted(whiles),
     }
+
+
+# ------------------------------------------------------------------------------------------------------------------
+# `redeclared output names rejected` (serde._declare_node_outputs): a functional contract on the real function
+def add_declare_outputs_target(eng):
+    """On a normal return every non-empty output name of the node is new in the scope - not declared before the call and
+    not declared twice by this node -, each is bound to its own value, and no earlier binding of the scope was replaced
+    (a value that consumers may already reference is never orphaned).  Loop invariant over the node's output list."""
+    from pyvc.core import ClassDecl, Exc, FnDecl
+    from pyvc.engine import Target
+    from pyvc.sem_stmt import LoopSpec
+    from pyvc.types import STR, TOpt, TRef, TSeq, VFunc
+    SER = "onnx_ir.serde"
+    eng.add_class(ClassDecl("NodeProtoLike", fields={"output": TSeq(STR), "op_type": STR, "name": STR}))
+    eng.add_class(ClassDecl("Value17", fields={"g_name": TOpt(STR)}))
+    for n in ("ValueInfoLike", "AnnotationLike"):
+        if n not in eng.classes:
+            eng.add_class(ClassDecl(n))
+    SCOPE = eng.DICT(STR, TRef("Value17"))
+    VIMAP = eng.DICT(STR, TRef("ValueInfoLike"))
+    QMAP = eng.DICT(STR, TRef("AnnotationLike"))
+
+    def new_value(e, p, args, kwargs, node):
+        v = e.new_object(p, "Value17")
+        e.write_field(p, v, "g_name", kwargs.get("name", args[0] if args else None))
+        return [(p, v)]
+
+    def may_raise(e, p, args, kwargs, node):
+        from pyvc.types import VNone
+        return [(p, VNone()), (p.copy(), Exc("AnyException", f"L{node.lineno}"))]
+    # the two helpers fill in type/shape/annotations of the NEW value only (they get no access to the scope): no effect on
+    # the state this contract talks about; they may raise
+    for nm in ("deserialize_value_info_proto", "_deserialize_quantization_annotation"):
+        eng.functions[f"{SER}.{nm}"] = FnDecl(f"{SER}.{nm}", "builtin", impl=may_raise)
+
+    def setup(e, p, env):
+        e.lenient = False
+        e.lib_models["c17.Value"] = new_value
+        e.global_overrides[("onnx_ir._core", "Value")] = VFunc("lib", "c17.Value", "Value")
+        e.global_overrides[(SER, "logger")] = __import__("pyvc.types", fromlist=["VOpaque"]).VOpaque("logger")
+
+    S = "box(current_value_scope)"
+    kept = (f"forall(lambda key=str: implies(key in old({S}), key in {S} and {S}[key] is old({S}[key])))")
+    fresh_names = ("forall(lambda i=int: implies(0 <= i and i < %s and proto.output[i] != '', "
+                   f"proto.output[i] in {S} and not (proto.output[i] in old({S})) and nonnull({S}[proto.output[i]]) and "
+                   f"{S}[proto.output[i]].g_name == proto.output[i]))")
+    distinct = ("forall(lambda i=int, j=int: implies(0 <= i and i < j and j < %s and proto.output[i] != '' and proto.output[j] != '', "
+                "proto.output[i] != proto.output[j]))")
+    own = ("forall(lambda i=int, j=int: implies(0 <= i and i < j and j < %s and proto.output[i] != '' and proto.output[j] != '', "
+           f"{S}[proto.output[i]] is not {S}[proto.output[j]]))")
+    eng.add_target(Target("_declare_node_outputs", mod=SER, qual="_declare_node_outputs", setup=setup,
+        params=dict(proto=TRef("NodeProtoLike"), current_value_scope=SCOPE, value_info=VIMAP, quantization_annotations=QMAP),
+        requires=["nonnull(proto)", "nonnull(current_value_scope)", "nonnull(value_info)", "nonnull(quantization_annotations)",
+                  "current_value_scope is not value_info and current_value_scope is not quantization_annotations",
+                  f"forall(lambda key=str: implies(key in {S}, nonnull({S}[key])))"],
+        loops={0: LoopSpec(invariant=[kept, fresh_names % "k", distinct % "k", own % "k",
+                                      f"forall(lambda key=str: implies(key in {S}, nonnull({S}[key]) and (key in old({S}) or allocated({S}[key]))))"],
+                           modifies=[f"{SCOPE.cls}.$v", "$alloc", "Value17.g_name"])},
+        ensures=[kept, fresh_names % "len(proto.output)", distinct % "len(proto.output)", own % "len(proto.output)"],
+        # a rejected node may have declared some of its outputs already; what was there before is still there
+        raises={"ValueError": [kept], "AnyException": [kept]}, modifies=None, assert_mode="raise"))
+
+
+_build17 = build
+
+
+def build(eng, tier):
+    _build17(eng, tier)
+    add_declare_outputs_target(eng)
